@@ -35,4 +35,20 @@ for fn in F.functions.values():
         # a few callers in the same class (e.g. a shared constructor body): after inlining, the statements live in the largest
         c = max((F.functions[c] for c in cs), key=lambda f: len(f.nodes))
         hosts["%s/%d" % (fn.qn, len(fn.params))] = {"qn": c.qn, "nparams": len(c.params), "key": c.key, "one_of": len(cs)}
-print(json.dumps({"records": out, "single_caller_helpers": hosts}, indent=1))
+# private / file-local helpers by signature: a *pure rename* of such a helper (old name gone, a never-seen name with the identical
+# signature in the same scope) is read under its frozen name (Facts._canonicalise_function_names)
+priv = {}
+names = set()
+for fn in F.functions.values():
+    if not fn.file.startswith("/repo/src"):
+        continue
+    names.add(fn.qn)
+    if fn.d.get("ctor") or fn.d.get("implicit") or fn.d.get("lambda") or fn.d.get("virtual") or fn.name.startswith("operator") or fn.name.startswith("~"):
+        continue
+    if fn.cls and access.get(fn.key, fn.d.get("access")) == "public":
+        continue
+    if not fn.cls and fn.d.get("in_header", True):
+        continue
+    priv[fn.key] = {"qn": fn.qn, "name": fn.name, "scope": fn.cls or fn.qn.rsplit("::", 1)[0], "ret_ct": fn.d.get("ret_ct"),
+                    "const": bool(fn.d.get("const")), "static": bool(fn.d.get("static"))}
+print(json.dumps({"records": out, "single_caller_helpers": hosts, "private_functions": priv, "function_names": sorted(names)}, indent=1))
